@@ -75,6 +75,9 @@ def gen_plan(ch: Chooser, tier: str) -> dict[str, Any]:
                                       {'const': False}])
         if ch.bool(0.5):
             opts['field'] = ch.choice(['spec.a', 'spec.b', 'spec'])
+            if kind == 'create' and ch.bool(0.3):
+                # a field outside the default essence (the status stanza), asked for by a non-update handler only
+                opts['field'] = 'status.ph'
             if opts['field'] != 'spec':
                 how = ch.weighted([('default', 2), ('value', 3), ('oldnew', 3 if kind == 'update' else 0)])
                 if how == 'value':
@@ -113,7 +116,10 @@ def gen_plan(ch: Chooser, tier: str) -> dict[str, Any]:
             meta['labels'] = labels
         if anns:
             meta['annotations'] = anns
-        return {'metadata': meta, 'spec': spec}
+        b_: dict[str, Any] = {'metadata': meta, 'spec': spec}
+        if ch.bool(0.5):
+            b_['status'] = {'ph': ch.choice([0, 1, 2])}
+        return b_
 
     for k, name in enumerate(names):
         b = body(name, stealth=(k == 0 and common_label is not None))
@@ -123,12 +129,17 @@ def gen_plan(ch: Chooser, tier: str) -> dict[str, Any]:
             actions.append({'t': round(ch.float(0.2, 5.0), 6), 'do': 'create', 'kind': 'widgets', 'body': b})
     for _ in range(ch.int(3, 12)):
         name = ch.choice(names)
-        what = ch.weighted([('a', 3), ('b', 3), ('flag', 1.5), ('tier', 2), ('note', 1.5), ('watch', 1.0), ('two', 1.5)])
+        what = ch.weighted([('a', 3), ('b', 3), ('flag', 1.5), ('tier', 2), ('note', 1.5), ('watch', 1.0), ('two', 1.5),
+                            ('status', 1.0)])
         patch: dict[str, Any]
         if what in ('a', 'b'):
             patch = {'spec': {what: ch.choice([0, 1, 2, None])}}
         elif what == 'flag':
             patch = {'spec': {'flag': ch.choice([True, False, None])}}
+        elif what == 'status':
+            actions.append({'t': round(ch.float(1.0, horizon), 6), 'do': 'patch', 'name': name, 'actor': 'controller',
+                            'patch': {'status': {'ph': ch.choice([0, 1, 2, None])}}})
+            continue
         elif what == 'tier':
             patch = {'metadata': {'labels': {'tier': ch.choice(['a', 'b', None])}}}
         elif what == 'note':
